@@ -1171,6 +1171,10 @@ def alignment_rules(run, R="ALIGN"):
         cm = calls_to(g, "BigInt::checked_mod")
         ok = len(cm) == 1 and _deep(g, cm[0][1]["args"][0]) == "P3"
         run.check(ok, R, R + "|helper", g.loc(), "bits_until_alignment takes the remainder of the address it is given", "bits_until_alignment no longer takes the remainder of its address argument")
+        # addresses may be negative (`#addr -4`): the truncating remainder is then negative and has to be brought back into 0..alignment
+        sg = [t for bi, t in g.calls() if (t.get("resolved") or t.get("callee") or "").endswith("BigInt::sign") and "checked_mod(" in _deep(g, t["args"][0], 5)]
+        run.check(bool(sg), R, R + "|helper|negative-addresses", g.loc(), "bits_until_alignment handles the negative remainder of a negative address",
+                  "bits_until_alignment converts the remainder of the address straight to usize: in a bank with a negative start address (`#addr -4`) `#align` and `#labelalign` fail with `value is out of supported range` although labels and `$` work there")
 
 
 def write_rules(run, R="WRITE"):
